@@ -607,7 +607,9 @@ func c04Requests(thorough bool) []c04req {
 				qs = append(qs, c04req{Kind: "iter", Key: k, Prefetch: p, V: v})
 			}
 		}
-		for _, px := range [][][]byte{{{0x00}}, {{}}, {{0x00, 0x00}, {0x80}}, {{0x40}}} {
+		for _, px := range [][][]byte{{{0x00}}, {{}}, {{0x00, 0x00}, {0x80}}, {{0x40}},
+			// overlapping, unsorted and repeated prefixes
+			{{0x00, 0x00}, {0x00}}, {{0x00, 0x80}, {0x00}}, {{0x00}, {0x00, 0x00}}, {{0x80}, {}}, {{0x80}, {0x00}}, {{0x00}, {0x00}}, {{0xff}, {0x00, 0x80}, {}}} {
 			for _, lim := range []uint16{0, 1, 2, 255} {
 				qs = append(qs, c04req{Kind: "prefixes", Prefixes: px, Prefetch: lim, V: v})
 			}
@@ -634,7 +636,7 @@ func c04MakeTree(ndb dbapi.NodeDB, c kv.Contents) (*c04tree, error) {
 // proofs from neighbouring trees used for splicing.
 func c04CheckTree(r *ev.Run, tr *c04tree, neighbours []*c04tree, reqs []c04req, bitLevel bool) {
 	var pv syncer.ProofVerifier
-	var evals, mutants, accepted int64
+	var evals, mutants, accepted, prefixChecks int64
 	// An honest peer (the tree itself) read through small node caches: gets, iteration from several
 	// seek positions.  A cache that is too small may make a read fail, never lie.
 	for _, nc := range []uint64{1, 2, 3} {
@@ -714,6 +716,12 @@ func c04CheckTree(r *ev.Run, tr *c04tree, neighbours []*c04tree, reqs []c04req, 
 			it.Close()
 			rd.Close()
 		}
+		if q.Kind == "prefixes" {
+			if w := prefixIncomplete(tr.root, tr.c, q, p); w != "" {
+				r.Violate(ev.Violation{Engine: "kvmc", Key: fmt.Sprintf("c04 incomplete %s %s", tr.c, q), What: fmt.Sprintf("tree %s: proof of %s %s", tr.c, q, w), Artefact: c04Artefact{Contents: tr.c, Request: q, Mutation: "honest", Proof: p}})
+			}
+			prefixChecks++
+		}
 		lie := verifierLies(tr.root.Hash, p, tr.c)
 		if lie == "" {
 			lie = readerLies(&fixedSyncer{p}, tr.root, tr.c, 0)
@@ -752,6 +760,7 @@ func c04CheckTree(r *ev.Run, tr *c04tree, neighbours []*c04tree, reqs []c04req, 
 	r.Add("states", 1)
 	r.Add("transitions", evals+mutants)
 	r.Add("honest_proofs", evals)
+	r.Add("prefix_fetch_completeness_checks", prefixChecks)
 	r.Add("mutants", mutants)
 	r.Add("mutants_accepted_and_read_back", accepted)
 }
@@ -954,6 +963,9 @@ func c04Replay(r *ev.Run) {
 					what = fmt.Sprintf("proof does not determine key: %q err=%v", v, err)
 				}
 			}
+			if what == "" && a.Request.Kind == "prefixes" {
+				what = prefixIncomplete(tr.root, tr.c, a.Request, p)
+			}
 			if what == "" {
 				what = readerLies(&fixedSyncer{p}, tr.root, tr.c, 0)
 			}
@@ -983,3 +995,55 @@ func c04Replay(r *ev.Run) {
 
 var _ = sort.Strings
 var _ = strings.Join
+
+// prefixIncomplete: the proof of a prefix fetch must determine the first Limit keys of the
+// concatenation, over the requested prefixes in request order, of the keys under each prefix, and for
+// every prefix whose keys all fit, the complete range under it (so that the absence of further keys
+// is determined too).  The reader holds only the root and this proof.
+func prefixIncomplete(root node.Root, c kv.Contents, q c04req, p *syncer.Proof) string {
+	total := 0
+	var mustKnow []string
+	var complete [][]byte
+pl:
+	for _, px := range q.Prefixes {
+		for _, k := range sortedFrom(c, px) {
+			if total >= int(q.Prefetch) {
+				break pl
+			}
+			if !bytes.HasPrefix([]byte(k), px) {
+				break
+			}
+			mustKnow = append(mustKnow, k)
+			total++
+		}
+		if total < int(q.Prefetch) {
+			complete = append(complete, px)
+		}
+	}
+	rd := mkvs.NewWithRoot(&fixedSyncer{p}, nil, root)
+	defer rd.Close()
+	for _, k := range mustKnow {
+		v, err := rd.Get(kv.Ctx, []byte(k))
+		if err != nil || !valEq(v, c[k], true) {
+			return fmt.Sprintf("does not determine key %x, which is among the first %d keys under the requested prefixes: reader got %q err=%v, truth %q", k, q.Prefetch, v, err, c[k])
+		}
+	}
+	for _, px := range complete {
+		var want, got []string
+		for _, k := range sortedFrom(c, px) {
+			if bytes.HasPrefix([]byte(k), px) {
+				want = append(want, k)
+			}
+		}
+		it := rd.NewIterator(kv.Ctx)
+		for it.Seek(px); it.Valid() && bytes.HasPrefix(it.Key(), px); it.Next() {
+			got = append(got, string(it.Key()))
+		}
+		err := it.Err()
+		it.Close()
+		if err != nil || fmt.Sprint(got) != fmt.Sprint(want) {
+			return fmt.Sprintf("does not determine the keys under prefix %x (all of which fit into the limit): reader iterates %x err=%v, truth %x", px, got, err, want)
+		}
+	}
+	return ""
+}
